@@ -322,8 +322,8 @@ func runC11(c *Ctx) {
 			return
 		}
 		in := ru[0].(ssa.Instruction)
-		lifeFalse := core.CondEdges(hc, false, lifetimeCmp("Options.MaxConnLifetime"))
-		idleFalse := core.CondEdges(hc, false, lifetimeCmp("Options.MaxConnIdleTime"))
+		lifeFalse := core.PredEdges(hc, false, lifetimeCmp("Options.MaxConnLifetime"))
+		idleFalse := core.PredEdges(hc, false, lifetimeCmp("Options.MaxConnIdleTime"))
 		if len(lifeFalse) == 0 || len(idleFalse) == 0 || !core.OnlyViaEdges(hc, in, lifeFalse) || !core.OnlyViaEdges(hc, in, idleFalse) {
 			c.R.Bad(rule, key, cfg, p.Pos(in.Pos()), "an idle connection past its lifetime or idle time can be kept")
 			return
